@@ -209,6 +209,8 @@ type Conn struct {
 	writeLock            sync.Mutex
 
 	encryptedPackets []addrPkt
+	// application data that arrived before the local handshake completed
+	earlyApplicationData [][]byte
 
 	connectionClosedByUser bool
 	closeLock              sync.Mutex
@@ -566,6 +568,15 @@ func (c *Conn) Read(buff []byte) (n int, err error) { //nolint:cyclop
 	case <-c.readDeadline.Done():
 		return 0, dtlserrors.ErrDeadlineExceeded
 	default:
+	}
+
+	if early, ok := c.takeEarlyApplicationData(); ok {
+		if len(buff) < len(early) {
+			return 0, dtlserrors.ErrBufferTooSmall
+		}
+		copy(buff, early)
+
+		return len(early), nil
 	}
 
 	for {
@@ -2230,6 +2241,9 @@ func (c *Conn) handleApplicationDataRecord(
 	}
 
 	isLatestSeqNum := prepared.markPacketAsValid()
+	if c.parkEarlyApplicationData(content.Data) {
+		return isLatestSeqNum, packetOutcome{}, nil
+	}
 	select {
 	case c.decrypted <- content.Data:
 	case <-c.closed.Done():
@@ -2237,6 +2251,36 @@ func (c *Conn) handleApplicationDataRecord(
 	}
 
 	return isLatestSeqNum, packetOutcome{}, nil
+}
+
+// parkEarlyApplicationData keeps a payload that arrives before the local
+// handshake has completed. Read cannot take anything until then and the
+// channel to it holds one payload: a second one would block the caller, which
+// is the reader of the socket or the handshake itself, and the rest of the
+// handshake would never be processed. Read returns the parked payloads first.
+func (c *Conn) parkEarlyApplicationData(data []byte) bool {
+	c.lock.Lock()
+	defer c.lock.Unlock()
+	if c.handshakeEstablished == nil || c.isHandshakeCompletedSuccessfully() {
+		return false
+	}
+	if len(c.earlyApplicationData) < maxAppDataPacketQueueSize {
+		c.earlyApplicationData = append(c.earlyApplicationData, bytes.Clone(data))
+	}
+
+	return true
+}
+
+func (c *Conn) takeEarlyApplicationData() ([]byte, bool) {
+	c.lock.Lock()
+	defer c.lock.Unlock()
+	if len(c.earlyApplicationData) == 0 {
+		return nil, false
+	}
+	data := c.earlyApplicationData[0]
+	c.earlyApplicationData = c.earlyApplicationData[1:]
+
+	return data, true
 }
 
 func (c *Conn) handleRecordContent(
